@@ -153,3 +153,17 @@ fn c06_alg2_r3_key128_pw33() {
 fn c06_alg2_r4_key128_pw5() {
     alg2_harness::<4, 16, 5>();
 }
+#[kani::proof]
+#[kani::unwind(98)]
+#[kani::stub(std::hash::RandomState::new, fixed_random_state)]
+#[kani::stub(std::string::String::from_utf8_lossy, crate::object::verif_kani::lossy_stub)]
+fn c06_alg2_r2_pw0() {
+    alg2_harness::<2, 5, 0>();
+}
+#[kani::proof]
+#[kani::unwind(98)]
+#[kani::stub(std::hash::RandomState::new, fixed_random_state)]
+#[kani::stub(std::string::String::from_utf8_lossy, crate::object::verif_kani::lossy_stub)]
+fn c06_alg2_r2_pw33() {
+    alg2_harness::<2, 5, 33>();
+}
